@@ -27,6 +27,12 @@ and all addresses / denoms / proposal ids.
   `temporaryKey_injective`, `proposalIndexPrefix_selects`
 * funds: `sanctioned_debit_refused`, `sanctioned_balance_nondecreasing`,
   `sanctioned_balance_nondecreasing_history`, `credit_to_sanctioned_succeeds`
+* funds moved on an account's behalf (marker transfers by an administrator — with an authz grant
+  given before the sanction, forced, to a third party or to the administrator itself —,
+  withdrawals from a marker's / the market's account, exchange payments and order settlements):
+  `behalf_routes_refuse_sanctioned_debit`, `marker_transfer_source_not_sanctioned`,
+  `behalf_routes_leave_sanctions_alone`; the balance theorems above quantify over these
+  operations too.
 -/
 import PvProofs.Lemmas.SancBal
 import PvProofs.Lemmas.SancThreshold
@@ -268,6 +274,17 @@ theorem status_changes_only_by_governance (s : State) (op : Op) (h : isGovStep o
         simp only [Except.ok.injEq] at hs
         subst hs
         exact ⟨rfl, rfl⟩
+      | grant a b lim => exact ⟨(applyOp_route (op := .grant a b lim) rfl hs).1.st, (applyOp_route (op := .grant a b lim) rfl hs).1.cfg⟩
+      | mxfer admin frm to d x =>
+        exact ⟨(applyOp_route (op := .mxfer admin frm to d x) rfl hs).1.st, (applyOp_route (op := .mxfer admin frm to d x) rfl hs).1.cfg⟩
+      | mwd admin to d amt =>
+        exact ⟨(applyOp_route (op := .mwd admin to d amt) rfl hs).1.st, (applyOp_route (op := .mwd admin to d amt) rfl hs).1.cfg⟩
+      | mktwd admin to amt =>
+        exact ⟨(applyOp_route (op := .mktwd admin to amt) rfl hs).1.st, (applyOp_route (op := .mktwd admin to amt) rfl hs).1.cfg⟩
+      | pay src tgt sa ta =>
+        exact ⟨(applyOp_route (op := .pay src tgt sa ta) rfl hs).1.st, (applyOp_route (op := .pay src tgt sa ta) rfl hs).1.cfg⟩
+      | settle sl bu as pr =>
+        exact ⟨(applyOp_route (op := .settle sl bu as pr) rfl hs).1.st, (applyOp_route (op := .settle sl bu as pr) rfl hs).1.cfg⟩
   exact ⟨key.1, fun a => by rw [key.1, key.2]⟩
 /-! ### 1b. immediate entries and the deposit threshold
 
@@ -393,6 +410,12 @@ theorem new_temp_entry_needs_reaching_deposit (cfg : Cfg) (ops : List Op) (op : 
       | delegate who amt => simp [isGovStep] at hg
       | tomod who amt => simp [isGovStep] at hg
       | fund who amt => simp [isGovStep] at hg
+      | grant a b lim => simp [isGovStep] at hg
+      | mxfer admin frm to d x => simp [isGovStep] at hg
+      | mwd admin to d amt => simp [isGovStep] at hg
+      | mktwd admin to amt => simp [isGovStep] at hg
+      | pay src tgt sa ta => simp [isGovStep] at hg
+      | settle sl bu as pr => simp [isGovStep] at hg
 
 /-- For every history: after an accepted deposit (`MsgDeposit`, or the initial deposit of an
 accepted `MsgSubmitProposal`, whose proposal gets the id `nextId`) the proposal is stored and
@@ -624,6 +647,111 @@ theorem credit_to_sanctioned_succeeds (s : State) (frm to : Addr) (amt : Coins)
     simp only [Ledger.bal_move, hne, if_false, if_true]
     omega
 
+/-! ### 5b. funds moved on an account's behalf
+
+The property's list of routes ends with "transfers made on its behalf": the message is signed by
+somebody else — a marker administrator holding an authz grant the account gave before it was
+sanctioned, or force-transfer access; the market settling the account's orders; the other party
+of a payment — and the coins leave the sanctioned account.  All of these end in the bank's
+`SendCoins` / `InputOutputCoins`, where the sanction restriction looks at the account that is
+debited and at nothing else (not at the signer, not at the destination, not at the marker
+module's bypass). -/
+
+/-- No operation that moves funds on an account's behalf debits a sanctioned account: a marker
+transfer out of it (by any administrator, with any grant, forced or not, to any destination —
+the administrator's own account included), a withdrawal from it when it is a marker's or the
+market's account, a payment it is the paying side of, a settlement of its ask or of its bid. -/
+theorem behalf_routes_refuse_sanctioned_debit (s s' : State) (a : Addr)
+    (ha : isSanctionedAddr s.cfg s.st a = true) :
+    (∀ admin to d x, 0 ≤ x → transferCoin s admin a to d x ≠ .ok s') ∧
+    (∀ admin to d amt, applyOp s (.mwd admin to d amt) = .ok s' → ∀ m, getMarkerByDenom s.cfg d = some m → m.addr ≠ a) ∧
+    (∀ admin to amt, applyOp s (.mktwd admin to amt) = .ok s' → s.cfg.market ≠ a) ∧
+    (∀ other sAmt tAmt, applyOp s (.pay a other sAmt tAmt) = .ok s' → sAmt = []) ∧
+    (∀ other sAmt tAmt, applyOp s (.pay other a sAmt tAmt) = .ok s' → tAmt = []) ∧
+    (∀ other assets price, applyOp s (.settle a other assets price) ≠ .ok s' ∧
+      applyOp s (.settle other a assets price) ≠ .ok s') := by
+  refine ⟨?_, ?_, ?_, ?_, ?_, ?_⟩
+  · intro admin to d x hx h
+    have := (transferCoin_ok hx h).2
+    rw [ha] at this; cases this
+  · intro admin to d amt h m hm hma
+    simp only [applyOp] at h
+    split_ifs at h with hv
+    have hva : validAmt amt = true := by
+      cases h1 : validAmt amt
+      · exact absurd (Or.inr (Or.inr (by simp [h1]))) hv
+      · rfl
+    obtain ⟨_, m', hm', hs'⟩ := withdrawCoins_ok (validAmt_nonneg hva) h
+    rw [hm] at hm'
+    cases hm'
+    rw [hma, ha] at hs'; cases hs'
+  · intro admin to amt h hma
+    simp only [applyOp] at h
+    split_ifs at h with hv
+    have hva : validAmt amt = true := by
+      cases h1 : validAmt amt
+      · exact absurd (Or.inr (Or.inr (by simp [h1]))) hv
+      · rfl
+    have := (withdrawMarketFunds_ok (validAmt_nonneg hva) h).2
+    rw [hma, ha] at this; cases this
+  · intro other sAmt tAmt h
+    simp only [applyOp] at h
+    split_ifs at h with hv
+    have hcv : coinsValid sAmt = true ∧ coinsValid tAmt = true := by
+      cases h1 : coinsValid sAmt <;> cases h2 : coinsValid tAmt <;>
+        first | exact ⟨rfl, rfl⟩ | exact absurd (Or.inr (Or.inr (Or.inl (by simp [h1, h2])))) hv
+    have k := (acceptPayment_ok (coinsValid_nonneg hcv.1) (coinsValid_nonneg hcv.2) h).2.1
+    cases sAmt with
+    | nil => rfl
+    | cons c r => have := k rfl; rw [ha] at this; cases this
+  · intro other sAmt tAmt h
+    simp only [applyOp] at h
+    split_ifs at h with hv
+    have hcv : coinsValid sAmt = true ∧ coinsValid tAmt = true := by
+      cases h1 : coinsValid sAmt <;> cases h2 : coinsValid tAmt <;>
+        first | exact ⟨rfl, rfl⟩ | exact absurd (Or.inr (Or.inr (Or.inl (by simp [h1, h2])))) hv
+    have k := (acceptPayment_ok (coinsValid_nonneg hcv.1) (coinsValid_nonneg hcv.2) h).2.2
+    cases tAmt with
+    | nil => rfl
+    | cons c r => have := k rfl; rw [ha] at this; cases this
+  · intro other assets price
+    have key : ∀ sl bu, (sl = a ∨ bu = a) → applyOp s (.settle sl bu assets price) ≠ .ok s' := by
+      intro sl bu hor h
+      simp only [applyOp] at h
+      split_ifs at h with hv
+      have hva : validAmt assets = true ∧ validAmt price = true := by
+        cases h1 : validAmt assets <;> cases h2 : validAmt price <;>
+          first | exact ⟨rfl, rfl⟩ | exact absurd (Or.inr (Or.inr (Or.inr (Or.inl (by simp [h1, h2]))))) hv
+      obtain ⟨_, k1, k2⟩ := settleOrders_ok (validAmt_nonneg hva.1) (validAmt_nonneg hva.2) h
+      rcases hor with rfl | rfl
+      · rw [ha] at k1; cases k1
+      · rw [ha] at k2; cases k2
+    exact ⟨key a other (Or.inl rfl), key other a (Or.inr rfl)⟩
+
+/-- The accepted `MsgTransferRequest`, as an operation of a history: the account the coins left
+was not sanctioned when it started, and what happened is a change of the ledger and of the authz
+grants only. -/
+theorem marker_transfer_source_not_sanctioned (s s' : State) (admin frm to : Addr) (d : Denom) (x : Int)
+    (h : applyOp s (.mxfer admin frm to d x) = .ok s') :
+    isSanctionedAddr s.cfg s.st frm = false ∧ s'.st = s.st ∧ s'.props = s.props ∧ s'.cfg = s.cfg := by
+  have r := applyOp_route (op := .mxfer admin frm to d x) rfl h
+  simp only [applyOp] at h
+  split_ifs at h with hv
+  have hx : 0 ≤ x := by
+    have : ¬ x < 0 := fun hx => hv (Or.inr (Or.inr (Or.inr hx)))
+    omega
+  exact ⟨(transferCoin_ok hx h).2, r.1.st, r.1.props, r.1.cfg⟩
+
+/-- None of these operations (nor the authz grant) changes anybody's sanction status or anything
+else governance looks at; in particular a grant given before a sanction gives its holder no
+way to lift or to dodge it. -/
+theorem behalf_routes_leave_sanctions_alone (s s' : State) (op : Op) (hr : isRoute op = true)
+    (h : applyOp s op = .ok s') :
+    s'.st = s.st ∧ s'.props = s.props ∧ s'.cancelled = s.cancelled ∧
+      ∀ a, isSanctionedAddr s'.cfg s'.st a = isSanctionedAddr s.cfg s.st a := by
+  have r := (applyOp_route hr h).1
+  exact ⟨r.st, r.props, r.cancelled, fun a => by rw [r.st, r.cfg]⟩
+
 /-! ### 6. key layout (x/sanction/keeper/keys.go)
 
 The abstract store is keyed by `(addr, id)` and "latest" means greatest id. These theorems tie
@@ -722,6 +850,41 @@ example :
       (step s (.deposit "A" 1 [("hash", 459)])).st.temp = [] ∧
       (step s (.deposit "A" 1 [("hash", 460)])).st.temp = [⟨"B", 1, true⟩] ∧
       isSanctionedAddr multiCfg (step s (.deposit "A" 1 [("hash", 460)])).st "B" = true := by
+  decide
+
+/-- a restricted marker whose administrator `B` holds transfer and force-transfer access -/
+def markerCfg : Cfg :=
+  { unsanctionable := ["GOV"],
+    markers := [{ denom := "rcoin", addr := "RC", allowForce := true, xfer := ["A", "B"], force := ["B"], withdraw := ["A"], deposit := [] }] }
+
+/-- `behalf_routes_refuse_sanctioned_debit` / `marker_transfer_source_not_sanctioned` are not
+vacuous: `C` lets administrator `A` move its restricted coins (authz grant) and `A` does so; once
+`C` is sanctioned neither `A` (with the grant still in force) nor `B` (forced transfer) can take
+them — to their own account or to anybody else — while coins can still be brought to `C`. -/
+example :
+    let ops : List Op :=
+      [ .fund "C" [("rcoin", 100)], .fund "B" [("rcoin", 100)], .grant "C" "A" [("rcoin", 60)], .mxfer "A" "C" "A" "rcoin" 10 ]
+    let s := run (init markerCfg) ops
+    let t := step s (.msg ⟨true, true, ["C"]⟩)
+    s.ledger.bal "C" "rcoin" = 90 ∧ s.ledger.bal "A" "rcoin" = 10 ∧
+      (s.grants.map fun g => (g.grantee, g.granter, Coins.amountOf g.limit "rcoin")) = [("A", "C", 50)] ∧
+      isSanctionedAddr t.cfg t.st "C" = true ∧
+      (step t (.mxfer "A" "C" "A" "rcoin" 10)).ledger.bal "C" "rcoin" = 90 ∧
+      (step t (.mxfer "A" "C" "D" "rcoin" 10)).ledger.bal "C" "rcoin" = 90 ∧
+      (step t (.mxfer "B" "C" "B" "rcoin" 10)).ledger.bal "C" "rcoin" = 90 ∧
+      (step s (.mxfer "B" "C" "B" "rcoin" 10)).ledger.bal "C" "rcoin" = 80 ∧
+      (step t (.mxfer "B" "B" "C" "rcoin" 10)).ledger.bal "C" "rcoin" = 100 := by
+  decide
+
+/-- payments and settlements: refused when the paying side is sanctioned, accepted otherwise -/
+example :
+    let ops : List Op := [ .fund "A" [("stake", 100)], .fund "B" [("acoin", 100)], .msg ⟨true, true, ["A"]⟩ ]
+    let s := run (init markerCfg) ops
+    (step s (.pay "A" "B" [("stake", 5)] [])).ledger.bal "A" "stake" = 100 ∧
+      (step s (.pay "B" "A" [("acoin", 5)] [])).ledger.bal "A" "acoin" = 5 ∧
+      (step s (.pay "B" "A" [("acoin", 5)] [("stake", 1)])).ledger.bal "A" "stake" = 100 ∧
+      (step s (.settle "A" "B" [("stake", 5)] [("acoin", 7)])).ledger.bal "A" "stake" = 100 ∧
+      (step (step s (.msg ⟨false, true, ["A"]⟩)) (.settle "A" "B" [("stake", 5)] [("acoin", 7)])).ledger.bal "A" "stake" = 95 := by
   decide
 
 end PvProofs.C06
